@@ -529,7 +529,11 @@ def run(res, tier, seed):
         "process-level data (XalanTransformer::initialize) lives on a separate manager except in the raw-mode scenarios (init-terminate, shared-manager, hist-raw-*)",
         "std::terminate call sites are grouped by the top 3 library frames (template arguments stripped, *Allocator wrappers merged) of the plain -O1 build",
         "the Probe's expected output is a literal in Trace_C19.tla (fixed transformation)",
+        "UBSan reports a null-reference binding in XercesDocumentWrapper's constructor on the success path (no refused request): outside C19 (C03), so the xerces-dom scenario runs in the plain build only",
     ]
+    if not os.environ.get("VERIF_KEEP"):
+        import shutil
+        shutil.rmtree(wd, ignore_errors=True)
 
 
 def slim(events):
